@@ -127,6 +127,13 @@ def c13_extra(pid, tier, seed):
             items.append('%d|%d|%d|%d' % (off, rnd_i64(rng), rnd_i64(rng) if t else 0,
                                           rng.randrange(0, 1 << 64) if k else 0))
         ilines.append(('ienc %d %d %d %d %s' % (v, t, k, base, ' '.join(items))).strip())
+    # a few large index files, in each of the four layouts: more items than fit any internal buffer of the writer
+    for t, k in ((0, 0), (1, 0), (0, 1), (1, 1)):
+        for cnt in ((3000,) if tier == 'quick' else (3000, 8200)):
+            v = rng.choice([1, 2])
+            items = ['%d|%d|%d|%d' % (j, 8 + 40 * j, 1000 + j if t else 0, rng.randrange(0, 1 << 64) if k else 0)
+                     for j in range(cnt)]
+            ilines.append('ienc %d %d %d 0 %s' % (v, t, k, ' '.join(items)))
     res3 = run_codec(ilines, 'codec3-' + pid)
     idec, iexp = [], []
     for op, impl, model in res3:
